@@ -1,3 +1,4 @@
 //! Code shared by the check binaries that touches the crates under test.
+pub mod fuzzrun;
 pub mod oracle;
 pub mod real;
